@@ -109,6 +109,26 @@ def cases(T, tier):
                     bounds='all real matrices with |m_ij| <= 2^20 and det == 0', desc='%s(true) of an exactly singular matrix throws std::invalid_argument' % fam, nvalid=0, **kw)
                 add('O5.%s%s%s.inverse_or_identity' % (fam, nn, tag), 'w_%s%s{T}' % (fam, nn), A, loose(n), pre=pre_box(n, detbound=False),
                     bounds='all real matrices with |m_ij| <= 2^20 (no determinant bound)', desc='%s(): every path returns a true inverse or exactly the identity (nothing else)' % fam, **kw)
+    # ---- 4x4: every copy (value/in-place, with and without the singExc flag, cofactor and Gauss-Jordan) on pinned families: the identity
+    # except for an arbitrary last column / last row and column / one off-diagonal pair.  Cheap (few symbolic entries), and it exercises
+    # the routing test "is the last column (0,0,0,1)?" of each copy, which the all-symbolic thorough-tier cases are too slow to reach.
+    def fam_claim(kind):
+        tmin = Fraction(1, 2 ** 126) if T == 'f' else Fraction(1, 2 ** 1022)
+        def c(I, O, X):
+            A = M(I['a'], 4); Xm = M(O['r'], 4); d = det(A)
+            inv = AND(allof(meq(mm(A, Xm), ident(4))), allof(meq(mm(Xm, A), ident(4))))
+            if kind == 'gj': small = eq(d, rz(0))
+            else: small = OR(eq(d, rz(0)), *[le(zabsr(d), rmul(rz(tmin), zabsr(minor(A, i, j)))) for i in range(4) for j in range(4)])
+            return [('true inverse, or the identity for the documented singular reason (zero pivot resp. |det| <= min*|cofactor|)', OR(inv, AND(allof(meq(Xm, ident(4))), small))), ('no exception', O['exc'] == 0)]
+        return c
+    FAMS = [('last_column', [3, 7, 11, 15]), ('last_row_and_column', [3, 7, 11, 12, 13, 14, 15])]
+    for fname, sym_ in FAMS:
+        fx = {i: (1 if i % 5 == 0 else 0) for i in range(16) if i not in sym_}
+        for wname, extra in (('inv44', []), ('invb44', [Int(0)]), ('invert44', []), ('invertb44', [Int(0)]), ('gjinv44', []), ('gjinvb44', [Int(0)]), ('gjinvert44', []), ('gjinvertb44', [Int(0)])):
+            add('O6.%s.%s' % (wname, fname), 'w_%s{T}' % wname, [In('a', 16, fixed=fx), Out('r', 16)] + extra, fam_claim('gj' if wname.startswith('gj') else 'inv'), tier=('thorough' if (T == 'f' or fname != 'last_column') else 'quick'), core=(fname == 'last_column'),
+                pre=lambda I: [AND(R(v).n >= -64, R(v).n <= 64) for v in I['a'] if not R(v).conc()], budget=200, timeout_ms=20000, max_paths=600, nvalid=3,
+                bounds='4x4 matrices equal to the identity except for an arbitrary %s (entries in [-64,64])' % fname.replace('_', ' '),
+                desc='Matrix44 %s on the family "identity with an arbitrary %s": a true two-sided inverse, or the identity exactly when the matrix is singular' % (wname.replace('b44', '44(false)').replace('44', ''), fname.replace('_', ' ')))
     return cs
 
 
